@@ -294,16 +294,17 @@ class Input(ContextManager["Input"]):
         )
         if event:
             return event
-        if (
-            self.queued_scheduled_events and when < time.time()
-        ):  # when should always be defined
-            # because queued_scheduled_events should not be modified during this time
-            logger.debug(
-                "popping an event! %r %r",
-                self.queued_scheduled_events[0],
-                self.queued_scheduled_events[1:],
-            )
-            return self.queued_scheduled_events.pop(0)[1]
+        if self.queued_scheduled_events:
+            # events may have been scheduled (from a callback) while we were waiting
+            self.queued_scheduled_events.sort(key=lambda pair: pair[0])
+            when, _ = self.queued_scheduled_events[0]
+            if when < time.time():
+                logger.debug(
+                    "popping an event! %r %r",
+                    self.queued_scheduled_events[0],
+                    self.queued_scheduled_events[1:],
+                )
+                return self.queued_scheduled_events.pop(0)[1]
         if not stdin_ready_for_read:
             return None
 
